@@ -746,3 +746,35 @@ impl<T> Iterator for RawDrain<'_, T> {
 
 impl<T> ExactSizeIterator for RawDrain<'_, T> {}
 impl<T> FusedIterator for RawDrain<'_, T> {}
+
+// Verification hooks: compiled only with the `verif-hooks` feature; they add no behaviour.
+#[cfg(feature = "verif-hooks")]
+pub(crate) const VERIF_R: usize = R;
+
+#[cfg(feature = "verif-hooks")]
+impl<T> RawTable<T> {
+    /// Assembles a table pair directly from its parts.
+    pub(crate) fn verif_from_parts(
+        table: raw::RawTable<T>,
+        old: Option<(raw::RawTable<T>, raw::RawIter<T>)>,
+    ) -> Self {
+        RawTable {
+            table,
+            leftovers: old.map(|(table, items)| OldTable { table, items }),
+        }
+    }
+
+    /// Exposes the main table and, if present, the old table and its cached iterator.
+    #[allow(clippy::type_complexity)]
+    pub(crate) fn verif_parts(
+        &self,
+    ) -> (
+        &raw::RawTable<T>,
+        Option<(&raw::RawTable<T>, &raw::RawIter<T>)>,
+    ) {
+        (
+            &self.table,
+            self.leftovers.as_ref().map(|lo| (&lo.table, &lo.items)),
+        )
+    }
+}
